@@ -47,7 +47,7 @@ class Check(PropertyCheck):
                 yield Scenario(lines, {"kind": "frames", "count": cnt, "mode": mode})
                 continue
             sc = slices.dispatch_scenario(rng, with_invalid=False, stop_early=True, max_jobs=5, max_machines=4, max_ops=4,
-                                          flt=None)
+                                          flt=None, huge=False)  # matplotlib/numpy cannot hold ints >= 2**63
             lines = []
             hist = []
             for ln in sc.lines:
